@@ -12,7 +12,7 @@ from props.C16 import _enc_dict
 
 REQUIRED_THEOREMS = ['Usid.C05.returned_is_genuine', 'Usid.C05.resume_is_most_recent_partial', 'Usid.C05.else_fresh',
                      'Usid.C05.malformed_never_used', 'Usid.C05.override_fresh_and_frame']
-RULE = ('[also: float / string lists and booleans as parameters, one value against a list of values, a recorded source reference pointing at this or at ANOTHER dataset of the file, verbose=True; no group other than the reused one may change] histories of 0-5 earlier result groups (built with raw h5py) over dataset names {Raw, Raw_Data, Data, aw} x tools '
+RULE = ('[also: histories written by the library itself for two datasets of the same name in different groups, results next to the source / in a common group / in another file] [also: float / string lists and booleans as parameters, one value against a list of values, a recorded source reference pointing at this or at ANOTHER dataset of the file, verbose=True; no group other than the reused one may change] histories of 0-5 earlier result groups (built with raw h5py) over dataset names {Raw, Raw_Data, Data, aw} x tools '
         '{Fit, Fitter, it, Fit_x}, parameters equal or differing in one value (including a large whole number off by one and a float off by a relative 4e-8)/type/length/key, progress records of every '
         'kind (complete, partial, legacy attribute only, neither, wrong dtype/length/rank, non-dataset, values outside '
         '{0,1}, nearly complete large N), same-file and separate-file targets (also a foreign source with the same '
@@ -100,6 +100,12 @@ def generate(seed, tier):
         cases.append({'n': n, 'm': 2, 'dset': d, 'tool': t, 'prior': prior, 'separate': separate,
                       'override': rng.random() < 0.25, 'query_parms': copy.deepcopy(BASE_PARMS),
                       'verbose': rng.random() < 0.15})
+    # histories written by the LIBRARY itself: two datasets of the same name in different groups of one file, results
+    # placed next to the source / in a common group of the file / in another file; then the same and the twin dataset
+    for i in range({'quick': 12, 'thorough': 60, 'search': 30}[tier]):
+        rng = derived_rng(seed, 'C05t', i)
+        cases.append({'kind': 'twin', 'n': rng.randint(2, 5), 'm': 2, 'place': ['default', 'common', 'other_file'][i % 3],
+                      'first_complete': rng.random() < 0.7, 'parms': rng.choice([{'a': 1}, {'a': 1, 'g': ['x', 'yy'], 'f': [0.5, 1.5]}])})
     return cases
 
 
@@ -152,7 +158,85 @@ def _dump(g):
     return out
 
 
+def _run_twin(inp, work):
+    n, m = inp['n'], inp['m']
+    ds = {'pos': {'sizes': [n], 'rate': [0], 'labels': ['PX'], 'units': ['a'], 'values': [list(range(n))]},
+          'spec': {'sizes': [m], 'rate': [0], 'labels': ['SX'], 'units': ['b'], 'values': [list(range(m))]}, 'dtype': 'f8'}
+    src, tgt = os.path.join(work, 'src.h5'), os.path.join(work, 'tgt.h5')
+    log = os.path.join(work, 'log.txt')
+    os.environ[procs.LOG_ENV] = log
+    RowProc = procs.make_proc_class()
+    out = {}
+    f = h5py.File(src, 'w')
+    ft = h5py.File(tgt, 'w') if inp['place'] == 'other_file' else None
+    try:
+        ga, gb = f.create_group('GA'), f.create_group('GB')
+        ma = gen.write_usid(ga, ds, name='Raw')
+        mb = gen.write_usid(gb, ds, name='Raw', data=gen.main_array(n, m, 'f8') + 1000.0)
+        kw = {'default': {}, 'common': {'h5_target_group': f.create_group('T')},
+              'other_file': {'h5_target_group': ft.create_group('T') if ft else None}}[inp['place']]
+
+        def run(main, stop_after=None):
+            before = len(procs.read_log(log, m))
+            with Machine(4, 2 ** 33), quiet():
+                p = RowProc(main, parms=dict(inp['parms']), cores=1, **kw)
+                dups = [g.name for g in p.duplicate_h5_groups]
+                parts = [g.name for g in p.partial_h5_groups]
+                if stop_after is not None:
+                    p._max_pos_per_read = 1
+                    p._create_results_datasets()                   # a first run that did not get far: nothing marked
+                    return {'group': p.h5_results_grp.name, 'dups': dups, 'partials': parts, 'calls': 0, 'results_ok': None}
+                g = p.compute()
+            res = [float(x) for x in g['Results'][()]]
+            want = [procs.map_value(main[i]) for i in range(n)]
+            return {'group': g.name, 'dups': dups, 'partials': parts, 'calls': len(procs.read_log(log, m)) - before,
+                    'results_ok': res == want}
+        out['first'] = run(ma) if inp['first_complete'] else run(ma, stop_after=0)
+        out['twin'] = run(mb)                    # another dataset of the same name: nothing of the first run is its own
+        out['again'] = run(ma)                   # the first dataset again
+        out['twin_again'] = run(mb)
+        return out
+    except Exception as e:      # noqa
+        out['err'] = '%s: %s' % (type(e).__name__, str(e)[:100])
+        return out
+    finally:
+        f.close()
+        if ft is not None:
+            ft.close()
+
+
+def _oracle_twin(inp, obs):
+    fails = []
+    n = inp['n']
+    what = 'results placed %s' % inp['place']
+    if 'err' in obs:
+        return ['twin-raises: %s (%s)' % (obs['err'], what)]
+    first, twin, again, twin2 = obs['first'], obs['twin'], obs['again'], obs['twin_again']
+    if inp['place'] != 'other_file':
+        # within one file the recorded source tells the two datasets apart
+        if twin['group'] == first['group'] or first['group'] in twin['dups'] + twin['partials']:
+            fails.append('twin-reuse: results of /GA/Raw were %s for /GB/Raw, a different dataset of the same name (%s)'
+                         % ('returned' if twin['calls'] == 0 else 'resumed', what))
+        if twin['calls'] != n or not twin['results_ok']:
+            fails.append('twin-computed: the twin dataset was not computed afresh (calls %s, results ok %s; %s)'
+                         % (twin['calls'], twin['results_ok'], what))
+        if twin2['calls'] != 0 or twin2['group'] != twin['group']:
+            fails.append('twin-own-results: the twin dataset\'s own complete results were not returned (%s)' % what)
+    tag = 'own-results'
+    if inp['place'] == 'other_file':
+        # across files the name is all there is (known finding KF-D15): the twin's groups are taken for the dataset's own
+        tag = 'genuine-foreign-source-twin'
+    if inp['first_complete']:
+        if again['calls'] != 0 or again['group'] != first['group']:
+            fails.append('%s: the complete results of /GA/Raw were not returned for /GA/Raw (%s)' % (tag, what))
+    elif not again['results_ok']:
+        fails.append('%s: /GA/Raw does not end with its results (%s)' % (tag, what))
+    return fails
+
+
 def run_impl(inp, work):
+    if inp.get('kind') == 'twin':
+        return _run_twin(inp, work)
     n, m = inp['n'], inp['m']
     ds = {'pos': {'sizes': [n], 'rate': [0], 'labels': ['PX'], 'units': ['a'], 'values': [list(range(n))]},
           'spec': {'sizes': [m], 'rate': [0], 'labels': ['SX'], 'units': ['b'], 'values': [list(range(m))]}}
@@ -228,6 +312,8 @@ def _kind(pr, n):
 
 
 def oracle(inp, obs):
+    if inp.get('kind') == 'twin':
+        return _oracle_twin(inp, obs)
     fails = []
     if 'construct_err' in obs:
         return ['construct: constructing the process raised %s' % obs['construct_err']]
@@ -285,6 +371,8 @@ def oracle(inp, obs):
 
 
 def nontrivial(inp, obs):
+    if inp.get('kind') == 'twin':
+        return True
     return any(inp['dset'] in pr['dset'] and inp['tool'] in pr['tool'] for pr in inp['prior'])
 
 
@@ -304,6 +392,8 @@ def _enc_status(pr, n):
 
 
 def model_requests(inp):
+    if inp.get('kind') == 'twin':
+        return []
     groups = []
     prior = sorted(inp['prior'], key=lambda pr: '%s-%s_%03d' % (pr['dset'], pr['tool'], pr['index']))
     for pr in prior:
@@ -318,11 +408,15 @@ def model_requests(inp):
 
 
 def model_obs(inp, resp):
+    if inp.get('kind') == 'twin':
+        return {'twin': True}
     r = resp[0]
     return {'dups': r['dups'], 'partials': r['partials'], 'decision': r['decision']}
 
 
 def project(inp, obs):
+    if inp.get('kind') == 'twin':
+        return {'twin': True}
     if 'construct_err' in obs or 'compute_err' in obs:
         return {'err': True}
     names = ['%s-%s_%03d' % (pr['dset'], pr['tool'], pr['index']) for pr in inp['prior']]
@@ -335,7 +429,8 @@ def project(inp, obs):
 
 
 KNOWN_CLASSES = {
-    'foreign_source_same_name': lambda inp, obs, failure: failure.startswith('genuine-foreign-source') and inp['separate'],
+    'foreign_source_same_name': lambda inp, obs, failure: (failure.startswith('genuine-foreign-source') and inp.get('separate')) or
+    (failure.startswith('genuine-foreign-source-twin') and inp.get('place') == 'other_file'),
     'legacy_upgrade_write': lambda inp, obs, failure: failure.startswith('override-frame-legacy-upgrade'),
 }
 
@@ -344,7 +439,10 @@ def distribution(cases, obs):
     d = {'return': 0, 'resume': 0, 'fresh': 0, 'override': 0, 'separate': 0, 'foreign': 0, 'errors': 0, 'big_n': 0}
     for k in PROGRESS:
         d['progress:' + k] = 0
+    d['twin_histories'] = sum(1 for c in cases if c.get('kind') == 'twin')
     for c, o in zip(cases, obs):
+        if c.get('kind') == 'twin':
+            continue
         d['override'] += c['override']
         d['separate'] += c['separate']
         d['big_n'] += c['n'] > 100
